@@ -75,4 +75,7 @@ int cmd_c03consts (void) ;
 /* iolog.c (C15) */
 void op_iolog (char **tok, int ntok) ;
 
+/* meta.c (C12) */
+void op_meta (char **tok, int ntok) ;
+
 #endif
